@@ -150,11 +150,24 @@ def frac_of(x) -> Fraction:
 
 # --------------------------------------------------------------------------- booleans
 class SBool:
-    __slots__ = ("term",)
+    """a boolean; npy=True marks a numpy.bool_ (same value semantics, but never *identical* to True / False)"""
+    __slots__ = ("term", "npy")
     _sx_symbolic = True
 
-    def __init__(self, term):
+    def __init__(self, term, npy=False):
         self.term = term
+        self.npy = npy
+
+    def __sx_is__(self, other):
+        # `x is True` / `x is flag`: Python's bools are singletons, so identity of two Python bools is equality of their values;
+        # a numpy.bool_ is a different object from True / False and from every other numpy.bool_
+        if other is self:
+            return True
+        if self.npy or getattr(other, "npy", False) or isinstance(other, _np.bool_):
+            return False
+        if isinstance(other, (bool, SBool)):
+            return SBool(self.term == self._t(other))
+        return False
 
     def __bool__(self):
         return _eng.current().decide(self.term)
